@@ -118,6 +118,86 @@ func TestC06(t *testing.T) {
 	}
 }
 
+// TestC06Groups mocks all methods of one type at once in one builder (the per-method mockers of a type share
+// cached containers), verifies every method of the corpus, resets, verifies again.
+func TestC06Groups(t *testing.T) {
+	rep := vmon.NewReport("C06")
+	defer rep.Write()
+	ms := reg.Methods
+	sort.Slice(ms, func(i, j int) bool { return key(&ms[i]) < key(&ms[j]) })
+	byType := map[string][]int{}
+	var order []string
+	for i := range ms {
+		k := ms[i].Pkg + "." + ms[i].Type
+		if _, ok := byType[k]; !ok {
+			order = append(order, k)
+		}
+		byType[k] = append(byType[k], i)
+	}
+	for gi, tk := range order {
+		idx := byType[tk]
+		for _, mode := range []string{"Apply", "Return", "mixed"} {
+			b := mocker.Create()
+			recs := make([]uintptr, len(ms))
+			want := map[int]int{}
+			var perr interface{}
+			func() {
+				defer func() { perr = recover() }()
+				for n, mi := range idx {
+					in := Installers[key(&ms[mi])]
+					v := 800000 + mi
+					if mode == "Apply" || (mode == "mixed" && n%2 == 0) {
+						in.Apply(b, &recs[mi], v)
+					} else {
+						in.Return(b, v)
+					}
+					want[mi] = v
+				}
+			}()
+			c := map[string]interface{}{"type": tk, "methods": len(idx), "mode": mode}
+			rep.Class(fmt.Sprintf("group/methods%d/%s", len(idx), mode))
+			if perr != nil {
+				rep.Violate("C06/mock-rejected", fmt.Sprintf("mocking all %d methods of %s (%s) panicked: %v", len(idx), tk, mode, perr), c)
+				func() { defer func() { recover() }(); b.Reset() }()
+				continue
+			}
+			verify := func(phase string, mocked bool) {
+				for oi := range ms {
+					o := &ms[oi]
+					for i := 0; i < 3; i++ {
+						for _, f := range forms {
+							got, p := safe(o.Forms[f], i, 7)
+							rep.Eval(1)
+							w, is := want[oi]
+							if !mocked || !is {
+								w = o.Orig(i, 7)
+							}
+							if p != nil || got != w {
+								k := "C06/mocked-method-not-replaced"
+								if !mocked {
+									k = "C06/not-restored"
+								} else if !is {
+									k = "C06/other-method-affected"
+								}
+								rep.Violate(k, fmt.Sprintf("all methods of %s mocked in one builder (%s) [%s]: %s instance %d via %s returned %d (panic %v), want %d", tk, mode, phase, key(o), i, f, got, p, w), c)
+								return
+							}
+						}
+					}
+				}
+			}
+			verify("mocked", true)
+			b.Reset()
+			verify("after Reset", false)
+			b.Reset() // a second Reset changes nothing
+			verify("after second Reset", false)
+		}
+		if gi == 0 {
+			rep.Sample(map[string]interface{}{"type": tk, "methods_mocked_together": len(idx)})
+		}
+	}
+}
+
 // ---- generic types: instantiations of equal and different GC shape
 
 type GA struct{ x int }
